@@ -81,4 +81,29 @@ TEXT = {
   "level": "Exploration, exhaustive over the stated finite product in the thorough tier (quick: a seed-rotated slice with all N,k cells and all families).",
   "note": "Domain restricted to one-pattern pagers with neutral URL words and plain Prev/Next labels, as the property states.", "ref": "DESIGN.md 4/C17",
  },
+ "C14": {
+  "technique": "property-based testing (rapid): structured markup specifications rendered as a full page and three single-source pages; oracles = metamorphic precedence fold of the single-source results plus by-construction reference for OpenGraph qualification, opt-out and per-source pins",
+  "level": "Exploration: thousands of generated specifications per run (four pages each) over present/absent/partial OpenGraph, schema.org and IE Reading View markup in drawn interleavings.",
+  "note": "The fold oracle trusts that the three sources do not read each other's markup (the renderings are built so); og:type precedes type-dependent OpenGraph properties.", "ref": "DESIGN.md 4/C14",
+ },
+ "C15": {
+  "technique": "property-based testing (rapid): <title> strings from a grammar with headings and markup titles; oracle = membership of Title in {markup title, contiguous part of <title>, first h1}, exactness clause, and a control/treatment pair for title repetition",
+  "level": "Exploration: thousands of generated titles per run over lengths, 13 separators, hierarchy forms, h1/h2 relations and markup titles; the repetition clause is decided by a metamorphic pair that differs in one word.",
+  "note": "Title words are unique tokens; IE_RM_OFF with a markup title is outside the generated domain.", "ref": "DESIGN.md 4/C15",
+ },
+ "C18": {
+  "technique": "exhaustive enumeration of rule-relevant table feature vectors against a decision list written from the property text (reference model), plus placement invariance and an API-level sample",
+  "level": "Exploration, exhaustive over the 1,512,000-vector product in the thorough tier (quick: a seed-rotated 1/16 residue class), 4 placements per vector.",
+  "note": "Features are computed from the parsed table by their definition; the internal classifier verdict is the observation point the property names.", "ref": "DESIGN.md 4/C18",
+ },
+ "C19": {
+  "technique": "property-based testing (rapid): embed sources built from hosts whose allow-list status is known by construction; oracle = every placeholder traces to an allow-listed true host with the constructed type and id, no frame survives outside placeholders",
+  "level": "Exploration: tens of thousands of generated pages per run over 30 host forms x schemes x path shapes x 5 tag kinds.",
+  "note": "Only the 'only if' direction of acceptance is asserted.", "ref": "DESIGN.md 4/C19",
+ },
+ "C20": {
+  "technique": "property-based testing (rapid): metamorphic triple (page, page with marked subtrees deleted, page with markers renamed); oracle = R(D)=R(D_del) if that yields >=500 words else R(D)=R(D_ren)",
+  "level": "Exploration: thousands of generated triples per run on both sides of the 500-word threshold, incl. exactly 499/500.",
+  "note": "Marker vocabulary restricted to words no other heuristic reads; Title, MarkupInfo and PaginationInfo are not compared.", "ref": "DESIGN.md 4/C20",
+ },
 }
